@@ -76,7 +76,8 @@ def gen_inputs(run, ec):
     """Strings for one delimiter set: exhaustive short strings over an adversarial alphabet, plus
     random longer ones."""
     f, c, r, e, s, t = ec
-    alpha = [f, c, s, r, e, 'H', 'E', 'a'] + ([t, 'L'] if t else ['x'])
+    # without a truncation character '#' is an ordinary character (it is the default truncation character of v2.7+)
+    alpha = [f, c, s, r, e, 'H', 'E', 'a'] + ([t, 'L'] if t else (['#', 'L'] if '#' not in ec else ['x']))
     n = 4 if not run.thorough else 5
     outs = ['']
     for k in range(1, n + 1):
@@ -88,6 +89,8 @@ def gen_inputs(run, ec):
 def gen_random_inputs(run, ec, count):
     f, c, r, e, s, t = ec
     alpha = [f, c, s, r, e, e, 'H', 'N', 'F', 'S', 'T', 'R', 'E', 'L', 'a', 'b', ' ', '1', 'X'] + ([t] if t else [])
+    # characters that delimit in other sets but are ordinary text under this one
+    alpha += [x for x in ('#', '|', '^', '&', '~') if x not in ec][:2]
     outs = []
     for _ in range(count):
         k = run.rng.randint(5, 14)
@@ -145,6 +148,39 @@ def check_case(run, classes_of_family, fid, ec, s):
         run.disagree('escape-family', why='classes of one escape family give different outputs',
                      family=fid, ec=ec, input=s, outputs=sorted(outs))
     return None
+
+
+def factory_fallback_oracle(run):
+    """Under TOLERANT a value that is invalid for a non-textual datatype is kept as text: that text is escaped like any
+    other textual leaf of the version (same output as the version's ST)."""
+    import hl7apy
+    from hl7apy.factories import datatype_factory
+    n = 0
+    for v in sorted(hl7apy.SUPPORTED_LIBRARIES, key=lambda x: [int(y) for y in x.split('.')]):
+        lib = hl7apy.load_library(v)
+        bdt = lib.get_base_datatypes()
+        ecs = [('|', '^', '~', '\\', '&', '#' if v >= '2.7' else None), random_ec(run.rng, v >= '2.7')]
+        for ec in ecs:
+            d = ec_dict(ec)
+            f, c, r, e, sb, t = ec
+            for dt in ('NM', 'SI', 'DT', 'TM', 'DTM'):
+                if dt not in bdt:
+                    continue
+                for text in ['n' + (t or '#') + 'a', 'a' + f + 'b', 'x' + c + 'y' + sb + 'z', 'q' + e + 'L' + e + 'r', r + 'w',
+                             'p' + e + 'q']:
+                    n += 1
+                    try:
+                        want = bdt['ST'](text).to_er7(d)
+                        got = datatype_factory(dt, text, v, 2).to_er7(d)
+                    except Exception as ex:  # noqa
+                        run.fail('escape-raises', 'the TOLERANT fall-back of datatype_factory raised', version=v, cls=dt, ec=ec,
+                                 input=text, exc=repr(ex))
+                        continue
+                    if got != want:
+                        run.fail('fallback-encoded-differently', 'an invalid value kept as text by datatype_factory (TOLERANT) is '
+                                 'not escaped like a textual leaf of its version', version=v, cls=dt, ec=ec, input=text,
+                                 output=got, as_st=want)
+    return n
 
 
 def element_level_oracle(run):
@@ -276,6 +312,7 @@ def main(argv=None):
                     cases.append((fid, ec, s, exp))
     run.log('implementation side: %d cases, %d oracle failures so far' % (len(cases), len(run.failures)))
     n_elem = element_level_oracle(run)
+    n_elem += factory_fallback_oracle(run)
     # ---- model side
     files = []
     shards = shard(cases, 1500)
